@@ -766,4 +766,341 @@ Lemma wakeup_after_timeout W kinds os :
     exists t, ptimeout (process_timeout st) = Some t /\ (now st + t <= d)%N.
 Proof. intros st l d. apply process_timeout_wakeup, reachable_r. Qed.
 
+(* ---------- C05_transient: a per-connection error consumes nothing else ---------- *)
+Definition set_l_inject (l : lst) (v : list ekind) : lst :=
+  {| l_uds := l_uds l; l_reg := l_reg l; l_edge := l_edge l; l_to := l_to l; l_backlog := l_backlog l;
+     l_inject := v; l_linked := l_linked l |}.
+
+Lemma transient_eq st tok ys l rest :
+  err st = None -> paused st = false -> available (av st) = true ->
+  nth_error (lsts st) tok = Some l -> l_inject l = ETransient :: rest ->
+  accept L st tok ys = accept L (upd_lst st tok (set_l_inject l rest)) tok ys.
+Proof.
+  intros He Hp Hav Hl Hinj. unfold accept. cbn [paused upd_lst set_lsts]. rewrite Hp.
+  pose proof (nth_error_Some_lt _ _ _ Hl) as Hlt.
+  unfold accept_fuel. cbn [lsts upd_lst set_lsts]. rewrite nth_error_replace_nth_same by exact Hlt. rewrite Hl, Hinj.
+  cbn [set_l_inject l_backlog l_inject length].
+  replace (length (l_backlog l) + S (length rest) + ysize ys) with (S (length (l_backlog l) + length rest + ysize ys)) by lia.
+  cbn [accept_loop]. rewrite He, Hav, Hl, Hinj. reflexivity.
+Qed.
+
+(* ---------- C05_idempotent ---------- *)
+Lemma pause_pause_eq f st ys rest :
+  err st = None -> wq st = IPause :: IPause :: rest ->
+  handle_waker L (S (S f)) st ys = handle_waker L (S f) (set_wq st (IPause :: rest) (wpend st)) ys.
+Proof.
+  intros He Hq. cbn [handle_waker]. rewrite He, Hq. cbn [err set_wq wq paused].
+  destruct (paused st) eqn:Hp; cbn; rewrite He, ?Hp; reflexivity.
+Qed.
+
+Lemma pause_when_paused_eq f st ys rest :
+  err st = None -> paused st = true -> wq st = IPause :: rest ->
+  handle_waker L (S f) st ys = handle_waker L f (set_wq st rest (wpend st)) ys.
+Proof. intros He Hp Hq. cbn [handle_waker]. rewrite He, Hq. cbn [paused set_wq]. rewrite Hp. reflexivity. Qed.
+
+Lemma resume_unmatched_eq f st ys rest :
+  err st = None -> paused st = false -> wq st = IResume :: rest ->
+  handle_waker L (S f) st ys = handle_waker L f (set_wq st rest (wpend st)) ys.
+Proof. intros He Hp Hq. cbn [handle_waker]. rewrite He, Hq. cbn [paused set_wq]. rewrite Hp. reflexivity. Qed.
+
+(* the state in which Resume's accept_all runs *)
+Definition resumed (st : state) : state := emit (set_lsts (set_paused st false) (map register (lsts st))) EvPauseOff.
+
+Lemma resume_resume_eq f st ys rest :
+  RInv st -> err st = None -> paused st = true -> wq st = IResume :: IResume :: rest ->
+  let '(st2, ys2) := accept_all L (resumed (set_wq st (IResume :: rest) (wpend st))) ys in
+  paused st2 = false /\
+  exists ext, wq st2 = IResume :: rest ++ ext /\
+    (err st2 = None ->
+     handle_waker L (S (S f)) st ys = handle_waker L f (set_wq st2 (rest ++ ext) (wpend st2)) ys2).
+Proof.
+  intros HR He Hp Hq. set (st0 := set_wq st (IResume :: rest) (wpend st)).
+  assert (HR0 : RInv st0) by (eapply RInv_core; [|exact HR]; reflexivity).
+  assert (HR1 : RInv (resumed st0)) by (apply RInv_resume; [exact HR0|exact Hp]).
+  destruct (accept_all L (resumed st0) ys) as [st2 ys2] eqn:Ea.
+  destruct (accept_all_r _ _ _ _ HR1 Ea) as [_ (F1 & _ & _ & (ext & Hext & _) & _)].
+  assert (Hp2 : paused st2 = false) by exact F1.
+  split; [exact Hp2|]. exists ext. split; [exact Hext|]. intros He2.
+  cbn [handle_waker]. rewrite He, Hq. fold st0. change (paused st0) with (paused st). rewrite Hp.
+  fold (resumed st0). rewrite Ea. rewrite He2, Hext. cbn [app paused set_wq]. rewrite Hp2. reflexivity.
+Qed.
+
+(* ---------- calls without a yield schedule (ys = []): nothing but the accept thread runs ---------- *)
+Definition Q (st st' : state) : Prop :=
+  lsts st' = lsts st /\ wq st' = wq st /\ wpend st' = wpend st /\ paused st' = paused st /\
+  stopped st' = stopped st /\ ptimeout st' = ptimeout st /\ now st' = now st.
+
+Lemma Q_refl st : Q st st.
+Proof. unfold Q. repeat split. Qed.
+Lemma Q_trans s0 s1 s2 : Q s0 s1 -> Q s1 s2 -> Q s0 s2.
+Proof. unfold Q. intros (A1 & A2 & A3 & A4 & A5 & A6 & A7) (B1 & B2 & B3 & B4 & B5 & B6 & B7). repeat split; congruence. Qed.
+Ltac qs := (unfold Q; repeat split).
+Lemma Q_av_set st i v : Q st (av_set st i v).
+Proof. unfold av_set. destruct (set (av st) i v); qs. Qed.
+Lemma Q_do_set_next st : Q st (do_set_next st).
+Proof. unfold do_set_next. destruct (length (handles st)); qs. Qed.
+
+Lemma send_connection_q st c st' ys' r :
+  send_connection L st c [] = (st', ys', r) -> ys' = [] /\ Q st st'.
+Proof.
+  unfold send_connection.
+  destruct (nth_error (handles st) (next st)) as [g|]; [|intros E; injection E as <- <- <-; split; [reflexivity|qs]].
+  destruct (nth_error (ws st) g) as [w|]; [|intros E; injection E as <- <- <-; split; [reflexivity|qs]].
+  destruct (w_open w).
+  - cbn [hd tl env_steps fold_left].
+    match goal with |- context [nth_error (ws ?s) g] => set (st1 := s) end.
+    assert (Q1 : Q st st1) by qs.
+    destruct (nth_error (ws st1) g) as [w2|]; [|intros E; injection E as <- <- <-; split; [reflexivity|exact Q1]].
+    intros E; injection E as <- <- <-. split; [reflexivity|].
+    eapply Q_trans; [exact Q1|]. eapply Q_trans; [|apply Q_do_set_next].
+    destruct (Z.eqb (w_cnt w2) L); [eapply Q_trans; [|apply Q_av_set]|]; qs.
+  - match goal with |- context [handles ?s] => match s with av_set _ _ _ => set (st3 := s) end end.
+    assert (Q3 : Q st st3) by (eapply Q_trans; [|apply Q_av_set]; qs).
+    destruct (handles st3); [intros E; injection E as <- <- <-; split; [reflexivity|exact Q3]|].
+    match goal with |- context [if ?b then _ else _] => destruct b end; intros E; injection E as <- <- <-;
+      (split; [reflexivity|exact Q3]).
+Qed.
+
+Lemma forced_send_q : forall fuel st c st' ys', forced_send L fuel st c [] = (st', ys') -> ys' = [] /\ Q st st'.
+Proof.
+  induction fuel as [|f IH]; intros st c st' ys'; cbn [forced_send].
+  - intros E; injection E as <- <-. split; [reflexivity|qs].
+  - destruct (err st); [intros E; injection E as <- <-; split; [reflexivity|qs]|].
+    destruct (send_connection L st c []) as [[s1 y1] r] eqn:Es. destruct (send_connection_q _ _ _ _ _ Es) as [-> Q1].
+    destruct r; [intros E; injection E as <- <-; split; [reflexivity|exact Q1]|].
+    intros E. destruct (IH _ _ _ _ E) as [-> Q2]. split; [reflexivity|exact (Q_trans _ _ _ Q1 Q2)].
+Qed.
+
+Lemma accept_one_q : forall fuel st c st' ys', accept_one L fuel st c [] = (st', ys') -> ys' = [] /\ Q st st'.
+Proof.
+  induction fuel as [|f IH]; intros st c st' ys'; cbn [accept_one].
+  - intros E; injection E as <- <-. split; [reflexivity|qs].
+  - destruct (err st); [intros E; injection E as <- <-; split; [reflexivity|qs]|].
+    destruct (nth_error (handles st) (next st)) as [g|]; [|intros E; injection E as <- <-; split; [reflexivity|qs]].
+    destruct (nth_error (ws st) g) as [w|]; [|intros E; injection E as <- <-; split; [reflexivity|qs]].
+    destruct (av_get st (w_idx w)) as [st0 b] eqn:Eg.
+    assert (Q0 : Q st st0) by (unfold av_get in Eg; destruct (get (av st) (w_idx w)); injection Eg as <- <-; qs).
+    destruct b.
+    + destruct (send_connection L st0 c []) as [[s1 y1] r] eqn:Es. destruct (send_connection_q _ _ _ _ _ Es) as [-> Q1].
+      destruct r; [intros E; injection E as <- <-; split; [reflexivity|exact (Q_trans _ _ _ Q0 Q1)]|].
+      intros E. destruct (IH _ _ _ _ E) as [-> Q2]. split; [reflexivity|exact (Q_trans _ _ _ Q0 (Q_trans _ _ _ Q1 Q2))].
+    + match goal with |- context [available (av ?s)] => set (st1 := s) end.
+      assert (Q1 : Q st st1).
+      { eapply Q_trans; [exact Q0|]. eapply Q_trans; [|apply Q_do_set_next]. eapply Q_trans; [|apply Q_av_set]. qs. }
+      destruct (available (av st1)); intros E.
+      * destruct (IH _ _ _ _ E) as [-> Q2]. split; [reflexivity|exact (Q_trans _ _ _ Q1 Q2)].
+      * destruct (forced_send_q _ _ _ _ _ E) as [-> Q2]. split; [reflexivity|exact (Q_trans _ _ _ Q1 Q2)].
+Qed.
+
+(* a listener with no injected error pending whose deadline field is o *)
+Definition Calm (T : nat) (o : option N) (st : state) : Prop :=
+  exists l, nth_error (lsts st) T = Some l /\ l_inject l = [] /\ l_to l = o.
+
+Lemma Calm_lsts T o st st' : lsts st' = lsts st -> Calm T o st -> Calm T o st'.
+Proof. unfold Calm. intros ->. auto. Qed.
+
+Lemma Calm_upd_other T o st tok l' : T <> tok -> Calm T o st -> Calm T o (upd_lst st tok l').
+Proof.
+  intros Hne (l & Hl & H). exists l. split; [|exact H]. cbn. rewrite nth_error_replace_nth_other; auto.
+Qed.
+
+Lemma Calm_upd_same T o st l l' :
+  nth_error (lsts st) T = Some l -> l_inject l' = [] -> l_to l' = l_to l -> Calm T o st -> Calm T o (upd_lst st T l').
+Proof.
+  intros Hl Hi Ht (l0 & Hl0 & H1 & H2). rewrite Hl in Hl0. injection Hl0 as <-.
+  exists l'. cbn. rewrite nth_error_replace_nth_same by (eapply nth_error_Some_lt; eauto). repeat split; congruence.
+Qed.
+
+(* the other fields an accept call without yields leaves alone *)
+Definition QL (st st' : state) : Prop :=
+  wq st' = wq st /\ wpend st' = wpend st /\ paused st' = paused st /\ stopped st' = stopped st /\ now st' = now st /\
+  length (lsts st') = length (lsts st).
+
+Lemma QL_refl st : QL st st.
+Proof. unfold QL. repeat split. Qed.
+Lemma QL_trans s0 s1 s2 : QL s0 s1 -> QL s1 s2 -> QL s0 s2.
+Proof. unfold QL. intros (A1 & A2 & A3 & A4 & A5 & A6) (B1 & B2 & B3 & B4 & B5 & B6). repeat split; congruence. Qed.
+Lemma QL_of_Q st st' : Q st st' -> QL st st'.
+Proof. unfold Q, QL. intros (A1 & A2 & A3 & A4 & A5 & A6 & A7). rewrite A1. repeat split; assumption. Qed.
+Lemma QL_upd_lst st tok l : QL st (upd_lst st tok l).
+Proof. unfold QL. cbn. rewrite length_replace_nth. repeat split. Qed.
+
+Lemma Calm_inject_nil T o st l : Calm T o st -> nth_error (lsts st) T = Some l -> l_inject l = [].
+Proof. intros (l0 & H0 & H1 & _) Hl. congruence. Qed.
+
+Lemma accept_loop_q : forall fuel st tok st' ys',
+  accept_loop L fuel st tok [] = (st', ys') ->
+  ys' = [] /\ QL st st' /\ forall T o, Calm T o st -> Calm T o st'.
+Proof.
+  induction fuel as [|f IH]; intros st tok st' ys'; cbn [accept_loop].
+  - intros E; injection E as <- <-. split; [reflexivity|]. split; [unfold QL; repeat split|]. intros T o. apply Calm_lsts. reflexivity.
+  - destruct (err st); [intros E; injection E as <- <-; split; [reflexivity|]; split; [apply QL_refl|auto]|].
+    destruct (available (av st)); [|intros E; injection E as <- <-; split; [reflexivity|]; split; [apply QL_refl|auto]].
+    destruct (nth_error (lsts st) tok) as [l|] eqn:El.
+    2:{ intros E; injection E as <- <-. split; [reflexivity|]. split; [unfold QL; repeat split|].
+        intros T o. apply Calm_lsts. reflexivity. }
+    destruct (l_inject l) as [|k rest] eqn:Einj.
+    + destruct (l_backlog l) as [|c rest]; [intros E; injection E as <- <-; split; [reflexivity|]; split; [apply QL_refl|auto]|].
+      match goal with |- context [accept_one L _ ?s _ _] => set (st1 := s) end.
+      assert (C1 : forall T o, Calm T o st -> Calm T o st1).
+      { intros T o HC. unfold st1. destruct (Nat.eq_dec T tok) as [->|Hne]; [|now apply Calm_upd_other].
+        eapply Calm_upd_same; eauto. }
+      destruct (accept_one L (accept_one_fuel st1) st1 _ []) as [st2 ys2] eqn:Ea.
+      destruct (accept_one_q _ _ _ _ _ Ea) as [-> Q2].
+      intros E. destruct (IH _ _ _ _ E) as (-> & Q3 & C3). split; [reflexivity|]. split.
+      * eapply QL_trans; [apply QL_upd_lst|]. eapply QL_trans; [apply QL_of_Q; exact Q2|exact Q3].
+      * intros T o HC. apply C3. eapply Calm_lsts; [apply Q2|]. now apply C1.
+    + assert (C1 : forall T o l', Calm T o st -> Calm T o (upd_lst st tok l')).
+      { intros T o l' HC. destruct (Nat.eq_dec T tok) as [->|Hne]; [|now apply Calm_upd_other].
+        pose proof (Calm_inject_nil _ _ _ _ HC El). congruence. }
+      destruct k.
+      * intros E; injection E as <- <-. split; [reflexivity|]. split; [apply QL_upd_lst|]. intros T o. apply C1.
+      * intros E. destruct (IH _ _ _ _ E) as (-> & Q3 & C3). split; [reflexivity|].
+        split; [eapply QL_trans; [apply QL_upd_lst|exact Q3]|]. intros T o HC. apply C3, C1, HC.
+      * intros E; injection E as <- <-. split; [reflexivity|].
+        match goal with |- context [set_timeout ?s ?d] =>
+          destruct (set_timeout_spec s d) as (_ & _ & S2 & S3 & S4 & S5 & S6 & S7 & _) end.
+        split.
+        -- unfold QL. rewrite S2, S3, S4, S5, S6, S7. cbn. rewrite length_replace_nth. repeat split.
+        -- intros T o HC. eapply Calm_lsts; [exact S2|]. apply C1, HC.
+Qed.
+
+Lemma accept_q st tok st' ys' :
+  accept L st tok [] = (st', ys') -> ys' = [] /\ QL st st' /\ forall T o, Calm T o st -> Calm T o st'.
+Proof.
+  unfold accept. destruct (paused st); [|apply accept_loop_q].
+  intros E; injection E as <- <-. split; [reflexivity|]. split; [apply QL_refl|auto].
+Qed.
+
+Lemma accept_toks_q toks : forall st st' ys',
+  accept_toks L st toks [] = (st', ys') -> ys' = [] /\ QL st st' /\ forall T o, Calm T o st -> Calm T o st'.
+Proof.
+  induction toks as [|t r IH]; intros st st' ys'; cbn [accept_toks].
+  - intros E; injection E as <- <-. split; [reflexivity|]. split; [apply QL_refl|auto].
+  - destruct (accept L st t []) as [s1 y1] eqn:Ea. destruct (accept_q _ _ _ _ Ea) as (-> & Q1 & C1).
+    intros E. destruct (IH _ _ _ E) as (-> & Q2 & C2). split; [reflexivity|]. split; [exact (QL_trans _ _ _ Q1 Q2)|auto].
+Qed.
+
+(* what the pause flag will be once the queue q has been processed *)
+Fixpoint final_paused (p : bool) (q : list interest) : bool :=
+  match q with
+  | [] => p
+  | i :: r => final_paused (match i with IPause => true | IResume => false | _ => p end) r
+  end.
+
+Lemma Calm_deregister_all T st : Calm T None st -> Calm T None (deregister_all st).
+Proof.
+  intros (l & Hl & H1 & H2). unfold Calm, deregister_all. cbn. rewrite nth_error_map, Hl. cbn.
+  eexists. split; [reflexivity|]. rewrite H2. cbn. auto.
+Qed.
+
+Lemma Calm_register_all T o st st1 : lsts st1 = map register (lsts st) -> Calm T o st -> Calm T o st1.
+Proof.
+  intros E (l & Hl & H1 & H2). unfold Calm. rewrite E, nth_error_map, Hl. cbn.
+  eexists. split; [reflexivity|]. unfold register. destruct (l_reg l); cbn; auto.
+Qed.
+
+Lemma err_set_err st b : err (set_err st b) <> None.
+Proof. cbn. destruct (err st); discriminate. Qed.
+
+Lemma handle_waker_q : forall fuel st st' ys',
+  handle_waker L fuel st [] = (st', ys') -> ~ In IStop (wq st) ->
+  ys' = [] /\ now st' = now st /\ length (lsts st') = length (lsts st) /\
+  (forall T o, Calm T o st -> (o <> None -> paused st = false /\ ~ In IPause (wq st)) -> Calm T o st') /\
+  (err st' = None ->
+     paused st' = final_paused (paused st) (wq st) /\ stopped st' = stopped st /\ wq st' = [] /\ wpend st' = wpend st).
+Proof.
+  induction fuel as [|f IH]; intros st st' ys'; cbn [handle_waker].
+  - intros E _; injection E as <- <-. repeat split; try (intros; now apply (Calm_lsts _ _ st)); try reflexivity;
+      exfalso; eapply err_set_err; eauto.
+  - destruct (err st) eqn:Ee; [intros E _; injection E as <- <-; repeat split; auto; congruence|].
+    destruct (wq st) as [|i rest] eqn:Eq; [intros E _; injection E as <- <-; repeat split; auto|].
+    set (st0 := set_wq st rest (wpend st)). intros E Hns.
+    assert (Hns' : ~ In IStop rest) by (intros H; apply Hns; now right).
+    (* the continuation, from a state s1 whose queue is rest *)
+    assert (K : forall s1 p1, handle_waker L f s1 [] = (st', ys') -> wq s1 = rest -> now s1 = now st ->
+              length (lsts s1) = length (lsts st) -> stopped s1 = stopped st -> wpend s1 = wpend st -> paused s1 = p1 ->
+              final_paused p1 rest = final_paused (paused st) (i :: rest) ->
+              (forall T o, Calm T o st -> (o <> None -> paused st = false /\ ~ In IPause (i :: rest)) ->
+                 Calm T o s1 /\ (o <> None -> p1 = false)) ->
+              ys' = [] /\ now st' = now st /\ length (lsts st') = length (lsts st) /\
+              (forall T o, Calm T o st -> (o <> None -> paused st = false /\ ~ In IPause (i :: rest)) -> Calm T o st') /\
+              (err st' = None -> paused st' = final_paused (paused st) (i :: rest) /\ stopped st' = stopped st /\
+                                 wq st' = [] /\ wpend st' = wpend st)).
+    { intros s1 p1 E1 Hq1 Hn1 Hl1 Hs1 Hw1 Hp1 Hfp HC1.
+      destruct (IH _ _ _ E1) as (-> & A2 & A3 & A4 & A5); [now rewrite Hq1|].
+      split; [reflexivity|]. split; [congruence|]. split; [congruence|]. split.
+      - intros T o HC Ho. destruct (HC1 T o HC Ho) as [HC' Hp']. apply A4; [exact HC'|].
+        intros Hne. split; [rewrite Hp1; auto|]. rewrite Hq1. intros Hin. apply (proj2 (Ho Hne)). now right.
+      - intros He'. destruct (A5 He') as (B1 & B2 & B3 & B4). rewrite Hq1, Hp1 in B1.
+        repeat split; congruence. }
+    assert (P0 : paused st0 = paused st) by reflexivity.
+    assert (W0 : wq st0 = rest) by reflexivity. assert (N0 : now st0 = now st) by reflexivity.
+    assert (S0 : stopped st0 = stopped st) by reflexivity. assert (WP0 : wpend st0 = wpend st) by reflexivity.
+    assert (LL0 : lsts st0 = lsts st) by reflexivity.
+    destruct i as [idx|g| | |].
+    + set (st1 := if existsb _ (handles st0) then av_set st0 idx true else st0) in E.
+      assert (Q1 : Q st0 st1) by (unfold st1; destruct (existsb _ (handles st0)); [apply Q_av_set|apply Q_refl]).
+      destruct Q1 as (L1 & L2 & L3 & L4 & L5 & L6 & L7). rewrite P0 in L4.
+      destruct (paused st1) eqn:Hp1.
+      * apply (K st1 true); [exact E|congruence|congruence|now rewrite L1, LL0|congruence|congruence|exact Hp1| |].
+        -- cbn. now rewrite <- L4.
+        -- intros T o HC Ho. split; [eapply Calm_lsts; [exact L1|exact HC]|].
+           intros Hne. destruct (Ho Hne) as [Hp _]. congruence.
+      * destruct (accept_all L st1 []) as [s2 y2] eqn:Ea. unfold accept_all in Ea.
+        destruct (accept_toks_q _ _ _ _ Ea) as (-> & (M1 & M2 & M3 & M4 & M5 & M6) & C2).
+        apply (K s2 false); [exact E|congruence|congruence|rewrite M6, L1, LL0; reflexivity|congruence|congruence|congruence| |].
+        -- cbn. now rewrite <- L4.
+        -- intros T o HC Ho. split; [|reflexivity]. apply C2. eapply Calm_lsts; [exact L1|exact HC].
+    + destruct (nth_error (ws st0) g) as [w|].
+      2:{ injection E as <- <-. repeat split; try (intros; now apply (Calm_lsts _ _ st)); try reflexivity;
+          exfalso; eapply err_set_err; eauto. }
+      set (st1 := set_handles (av_set st0 (w_idx w) true) (handles st0 ++ [g])) in E.
+      assert (Q1 : Q st0 st1) by (unfold st1; eapply Q_trans; [apply Q_av_set|qs]).
+      destruct Q1 as (L1 & L2 & L3 & L4 & L5 & L6 & L7). rewrite P0 in L4.
+      destruct (paused st1) eqn:Hp1.
+      * apply (K st1 true); [exact E|congruence|congruence|now rewrite L1, LL0|congruence|congruence|exact Hp1| |].
+        -- cbn. now rewrite <- L4.
+        -- intros T o HC Ho. split; [eapply Calm_lsts; [exact L1|exact HC]|].
+           intros Hne. destruct (Ho Hne) as [Hp _]. congruence.
+      * destruct (accept_all L st1 []) as [s2 y2] eqn:Ea. unfold accept_all in Ea.
+        destruct (accept_toks_q _ _ _ _ Ea) as (-> & (M1 & M2 & M3 & M4 & M5 & M6) & C2).
+        apply (K s2 false); [exact E|congruence|congruence|rewrite M6, L1, LL0; reflexivity|congruence|congruence|congruence| |].
+        -- cbn. now rewrite <- L4.
+        -- intros T o HC Ho. split; [|reflexivity]. apply C2. eapply Calm_lsts; [exact L1|exact HC].
+    + set (st1 := if paused st0 then st0 else emit (deregister_all (set_paused st0 true)) EvPauseOn) in E.
+      apply (K st1 true); [exact E| | | | | | |reflexivity|];
+        try (unfold st1; destruct (paused st0) eqn:Hp0; solve [reflexivity|exact Hp0|cbn; now rewrite map_length]).
+      intros T o HC Ho. destruct o as [d|].
+      * exfalso. destruct (Ho ltac:(discriminate)) as [_ Hni]. apply Hni. now left.
+      * split; [|intros H; congruence]. unfold st1. destruct (paused st0); [eapply Calm_lsts; [|exact HC]; reflexivity|].
+        eapply Calm_lsts; [|apply (Calm_deregister_all T (set_paused st0 true)); eapply Calm_lsts; [|exact HC]; reflexivity].
+        reflexivity.
+    + destruct (paused st0) eqn:Hp0.
+      * set (st1 := emit (set_lsts (set_paused st0 false) (map register (lsts st0))) EvPauseOff) in E.
+        destruct (accept_all L st1 []) as [s2 y2] eqn:Ea. unfold accept_all in Ea.
+        destruct (accept_toks_q _ _ _ _ Ea) as (-> & (M1 & M2 & M3 & M4 & M5 & M6) & C2).
+        apply (K s2 false); [exact E|exact M1|exact M5| |exact M4|exact M2|exact M3|reflexivity|].
+        -- rewrite M6. unfold st1. cbn. now rewrite map_length.
+        -- intros T o HC Ho. split; [|reflexivity]. apply C2. eapply (Calm_register_all T o st); [reflexivity|exact HC].
+      * apply (K st0 false); [exact E|reflexivity|reflexivity|reflexivity|reflexivity|reflexivity|exact Hp0|reflexivity|].
+        intros T o HC Ho. split; [eapply Calm_lsts; [|exact HC]; reflexivity|reflexivity].
+    + exfalso. apply Hns. now left.
+Qed.
+
+Lemma process_timeout_calm_none T st : Calm T None st -> Calm T None (process_timeout st).
+Proof.
+  intros (l & Hl & H1 & H2). rewrite process_timeout_eq. destruct (ptimeout st); [|exists l; auto].
+  unfold Calm. cbn. rewrite nth_error_map, Hl. cbn. exists l. split; [|auto]. unfold pto_l. now rewrite H2.
+Qed.
+
+Lemma process_timeout_calm_some T d st :
+  Calm T (Some d) st -> ptimeout st <> None -> paused st = false -> (d <= now st)%N ->
+  Calm T None (process_timeout st).
+Proof.
+  intros (l & Hl & H1 & H2) Hpt Hp Hd. rewrite process_timeout_eq. destruct (ptimeout st); [|congruence].
+  unfold Calm. cbn. rewrite nth_error_map, Hl. cbn. eexists. split; [reflexivity|]. unfold pto_l. rewrite H2, Hp.
+  destruct (N.ltb_spec (now st) d); [lia|]. unfold register. destruct (l_reg _); cbn; auto.
+Qed.
+
 End All.
